@@ -78,6 +78,7 @@ type cbRec struct {
 	Bp                       bool
 	Cmd                      byte
 	Skip                     bool // the stock debugger returned without prompting (statement without source position)
+	Defer                    bool // the statement is a defer statement (source text at its position)
 }
 
 type scripted struct {
@@ -104,6 +105,15 @@ func (d *scripted) cb(ir *fast.Interp, env *fast.Env, bp bool) fast.DebugOp {
 		pos = int(env.DebugPos[env.IP])
 	}
 	stockPos := pos
+	isDefer := false
+	if pos > 0 {
+		if g := &ir.Comp.Globals; g.Fileset != nil {
+			line, at := g.Fileset.Source(env.DebugPos[env.IP])
+			if c := at.Column - 1; c >= 0 && c < len(line) {
+				isDefer = strings.HasPrefix(line[c:], "defer")
+			}
+		}
+	}
 	if env.CallDepth == 0 && pos > 0 {
 		// top-level statements are re-parsed by every Interp.Debug/Eval call: their positions differ from run to run
 		pos = -2
@@ -112,7 +122,7 @@ func (d *scripted) cb(ir *fast.Interp, env *fast.Env, bp bool) fast.DebugOp {
 	if d.i < len(d.script) {
 		c = d.script[d.i]
 	}
-	d.recs = append(d.recs, cbRec{IP: env.IP, N: len(env.Code), Depth: env.CallDepth, Pos: pos, Emits: len(d.w.emits), Bp: bp, Cmd: c})
+	d.recs = append(d.recs, cbRec{IP: env.IP, N: len(env.Code), Depth: env.CallDepth, Pos: pos, Emits: len(d.w.emits), Bp: bp, Cmd: c, Defer: isDefer})
 	if len(d.recs) > d.limit {
 		panic(tooMany{})
 	}
@@ -207,6 +217,7 @@ func fmtVals(vs []xr.Value) string {
 type tstmt struct {
 	Depth, Pos int
 	Bp, Entry  bool
+	Defer      bool
 	ip, n, em  int
 }
 
@@ -230,7 +241,7 @@ func traceOf(recs []cbRec) ([]tstmt, string) {
 			l.Bp = true
 			continue
 		}
-		tr = append(tr, tstmt{Depth: r.Depth, Pos: r.Pos, Entry: r.IP == 0, ip: r.IP, n: r.N, em: r.Emits})
+		tr = append(tr, tstmt{Depth: r.Depth, Pos: r.Pos, Entry: r.IP == 0, Defer: r.Defer, ip: r.IP, n: r.N, em: r.Emits})
 	}
 	return tr, ""
 }
@@ -340,7 +351,7 @@ func sameActivationOrCallee(tr []tstmt, j int) bool {
 func coqTrace(tr []tstmt) string {
 	el := make([]string, len(tr))
 	for i, s := range tr {
-		el[i] = fmt.Sprintf("mkStmt %d (%d) %s %s", s.Depth, s.Pos, vh.CoqBool(s.Bp), vh.CoqBool(s.Entry))
+		el[i] = fmt.Sprintf("mkStmt %d (%d) %s %s %s", s.Depth, s.Pos, vh.CoqBool(s.Bp), vh.CoqBool(s.Entry), vh.CoqBool(s.Defer))
 	}
 	return vh.CoqList(el, "stmt")
 }
@@ -634,6 +645,13 @@ func main() {
 		}
 		rep.Dist(fmt.Sprintf("positionless_statements:%s", bucket(nSynth)))
 		rep.Dist(fmt.Sprintf("positionless_statement_followed_by_deeper_frame(deferred call):%s", bucket(nSynthDeeper)))
+		nDeferExec := 0
+		for _, s := range tr {
+			if s.Defer {
+				nDeferExec++
+			}
+		}
+		rep.Dist(fmt.Sprintf("executed_defer_statements:%s", bucket(nDeferExec)))
 		rep.Dist(fmt.Sprintf("defer_statements_in_source:%s", bucket(p.NDefer)))
 		rep.Dist(fmt.Sprintf("recovered_panic_sites_in_source:%s", bucket(p.NPanic)))
 
